@@ -17,7 +17,9 @@ FOREIGN_NAMES = ["notes.txt", "cachefile_keepme", "keepme_cachefile", "sub/cache
                  "cachefile", "_cachefile", "xcachefile_abc_cachefile", "cachefile_abc_cachefile.bak",
                  # user files named after a real cache file of this run ('@k<i>' = cache file name of key i)
                  "@k0.bak", "@k1.bak", "@k2~", "old-@k0", "@k1.orig", "sub/@k0", "backup_@k2.tar",
-                 "cachefile_0123456789abcdef0123456789abcdef_cachefile.bak"]
+                 "cachefile_0123456789abcdef0123456789abcdef_cachefile.bak",
+                 # other programs' unfinished downloads / temporaries living in the same directory
+                 "backup.tar.part", "movie.mkv.part", "data.tmp", ".hidden", "dl-user.tmp"]
 
 
 def wchoice(rng, pairs):
@@ -115,6 +117,8 @@ def gen_knobs(rng, prop, profile):
         "evict_on_startup": rng.random() < 0.15,
         "val_style": wchoice(rng, [(60, "bool"), (20, "numpy"), (20, "int")]),
         "ret_style": wchoice(rng, [(75, "true"), (25, "none")]),
+        # POSIX TZ strings need no tz database: XXX+7 = seven hours west of UTC, XXX-5:30 = India
+        "tz": wchoice(rng, [(60, "UTC"), (14, "XXX+7"), (13, "XXX-2"), (13, "XXX-5:30")]),
         "cache_dir": wchoice(rng, [(70, "cache"), (6, "products[v2]/cache"), (5, "my cache dir"), (5, "c*che?"),
                                    (5, "data.d/cachefile_x_cachefile"), (5, "d\u00e9p\u00f4t/cache"), (4, "a/b/c/cache")]),
         "big_requests": big,
@@ -317,6 +321,17 @@ def zombie_profile(rng, rec):
         else:
             rest = [k for k in range(K) if k not in keys] or keys
             seq.append({"id": nid + 1 + j, "op": "GET", "keys": rng.sample(rest, min(len(rest), rng.randint(1, 3))), "dt": dt})
+    if rng.random() < 0.5:
+        # the zombie's own late attempt fails: a fault planned for a key of its chunk in a LATER operation in
+        # which the caller only hits (or does not request) that key, so only the zombie can consume it
+        zk = rng.choice(keys[5:] or keys)
+        zid = nid + 20
+        others = [k for k in keys if k != zk]
+        seq.append({"id": zid, "op": "GET", "keys": rng.sample(others, min(len(others), rng.randint(1, 3))), "dt": 0})
+        zkinds = [k for k in fault_kinds_for(knobs["keys"][zk]) if k not in ("SHORT_WRITE", "EMFILE")]
+        rec["faults"].append(dict(make_fault(rng, zid, rng.choice(zkinds), zk), persist=False))
+        seq.append({"id": zid + 1, "op": "GET", "keys": [zk], "dt": 0})
+        knobs["sched"] = {"policy": "straggler", "q": rng.choice([0.02, 0.1, 0.3])}
     rec["ops"] = ops[:pos] + seq + ops[pos:]
     rec["faults"].append(make_fault(rng, nid, kind, fk))
     if rng.random() < 0.4:
